@@ -182,18 +182,20 @@ Record st := mkSt {
   m_decided : bool;
   m_err : bool; m_err_addr : N;
   m_pages : arr page;       (* the C heap of Page objects (never freed before __init__/dealloc) *)
-  m_nalloc : N              (* allocation attempts so far: the index into the allocator oracle *)
+  m_nalloc : N;             (* allocation attempts so far: the index into the allocator oracle *)
+  m_kept : option (list N)  (* last_run_last_ops: the list kept when a run is stopped by a Python exception, else NULL *)
 }.
 
-Definition set_cfg v s := mkSt v (m_tbl s) (m_cache s) (m_sg s) (m_fl s) (m_decided s) (m_err s) (m_err_addr s) (m_pages s) (m_nalloc s).
-Definition set_tbl v s := mkSt (m_cfg s) v (m_cache s) (m_sg s) (m_fl s) (m_decided s) (m_err s) (m_err_addr s) (m_pages s) (m_nalloc s).
-Definition set_cache v s := mkSt (m_cfg s) (m_tbl s) v (m_sg s) (m_fl s) (m_decided s) (m_err s) (m_err_addr s) (m_pages s) (m_nalloc s).
-Definition set_sg v s := mkSt (m_cfg s) (m_tbl s) (m_cache s) v (m_fl s) (m_decided s) (m_err s) (m_err_addr s) (m_pages s) (m_nalloc s).
-Definition set_fl v s := mkSt (m_cfg s) (m_tbl s) (m_cache s) (m_sg s) v (m_decided s) (m_err s) (m_err_addr s) (m_pages s) (m_nalloc s).
-Definition set_decided v s := mkSt (m_cfg s) (m_tbl s) (m_cache s) (m_sg s) (m_fl s) v (m_err s) (m_err_addr s) (m_pages s) (m_nalloc s).
-Definition set_err v a s := mkSt (m_cfg s) (m_tbl s) (m_cache s) (m_sg s) (m_fl s) (m_decided s) v a (m_pages s) (m_nalloc s).
-Definition set_pages v s := mkSt (m_cfg s) (m_tbl s) (m_cache s) (m_sg s) (m_fl s) (m_decided s) (m_err s) (m_err_addr s) v (m_nalloc s).
-Definition set_nalloc v s := mkSt (m_cfg s) (m_tbl s) (m_cache s) (m_sg s) (m_fl s) (m_decided s) (m_err s) (m_err_addr s) (m_pages s) v.
+Definition set_cfg v s := mkSt v (m_tbl s) (m_cache s) (m_sg s) (m_fl s) (m_decided s) (m_err s) (m_err_addr s) (m_pages s) (m_nalloc s) (m_kept s).
+Definition set_tbl v s := mkSt (m_cfg s) v (m_cache s) (m_sg s) (m_fl s) (m_decided s) (m_err s) (m_err_addr s) (m_pages s) (m_nalloc s) (m_kept s).
+Definition set_cache v s := mkSt (m_cfg s) (m_tbl s) v (m_sg s) (m_fl s) (m_decided s) (m_err s) (m_err_addr s) (m_pages s) (m_nalloc s) (m_kept s).
+Definition set_sg v s := mkSt (m_cfg s) (m_tbl s) (m_cache s) v (m_fl s) (m_decided s) (m_err s) (m_err_addr s) (m_pages s) (m_nalloc s) (m_kept s).
+Definition set_fl v s := mkSt (m_cfg s) (m_tbl s) (m_cache s) (m_sg s) v (m_decided s) (m_err s) (m_err_addr s) (m_pages s) (m_nalloc s) (m_kept s).
+Definition set_decided v s := mkSt (m_cfg s) (m_tbl s) (m_cache s) (m_sg s) (m_fl s) v (m_err s) (m_err_addr s) (m_pages s) (m_nalloc s) (m_kept s).
+Definition set_err v a s := mkSt (m_cfg s) (m_tbl s) (m_cache s) (m_sg s) (m_fl s) (m_decided s) v a (m_pages s) (m_nalloc s) (m_kept s).
+Definition set_pages v s := mkSt (m_cfg s) (m_tbl s) (m_cache s) (m_sg s) (m_fl s) (m_decided s) (m_err s) (m_err_addr s) v (m_nalloc s) (m_kept s).
+Definition set_nalloc v s := mkSt (m_cfg s) (m_tbl s) (m_cache s) (m_sg s) (m_fl s) (m_decided s) (m_err s) (m_err_addr s) (m_pages s) v (m_kept s).
+Definition set_kept v s := mkSt (m_cfg s) (m_tbl s) (m_cache s) (m_sg s) (m_fl s) (m_decided s) (m_err s) (m_err_addr s) (m_pages s) (m_nalloc s) v.
 
 (* ---------------------------------------------------------------- the state/exception monad *)
 
@@ -543,7 +545,7 @@ Definition mem_decide_storage (ev : envv) (al : alloc) : M unit :=
 Definition fresh_cache : cache := mkCache (anew 16 0) (anew 16 None) (anew 16 None) (anew 16 0) (anew 16 0).
 Definition fresh (w : N) (gstop : bool) (fmax : N) (nalloc : N) : st :=
   mkSt (mkCfg w (N.log2 w) (if w =? 64 then SIZE_MAX else 2 ^ w - 1) gstop (fmax mod U64))
-       (mkTbl None 0 0) fresh_cache (mkSegt None 0 0 true) (mkFlt None 0 false) false false 0 (anew 0 dpage) nalloc.
+       (mkTbl None 0 0) fresh_cache (mkSegt None 0 0 true) (mkFlt None 0 false) false false 0 (anew 0 dpage) nalloc None.
 (* the object as PyType_GenericNew leaves it (all zero) and after a first successful __init__ *)
 Definition zeroed : st := fresh 0 false 0 0.
 
@@ -632,6 +634,8 @@ Definition api_set_words (al : alloc) (ov : wov) (start0 : N) (values : list ite
 Definition allocated_bytes (s : st) : N :=
   (f_count (m_fl s) * 8 + t_used (m_tbl s) * PAGE_WORDS * 8 + t_count (m_tbl s) * 16) mod U64.
 (* 0: None (undecided), 1: paged, 2: hybrid, 3: flat *)
+(* the last_run_last_ops getter: the kept list, or a fresh empty one *)
+Definition last_run_last_ops (s : st) : list N := match m_kept s with Some l => l | None => [] end.
 Definition storage_mode (s : st) : N :=
   if negb (m_decided s) then 0 else
   match f_arr (m_fl s) with None => 1 | Some _ => if f_covers (m_fl s) then 3 else 2 end.
@@ -659,8 +663,8 @@ Definition do_callback (al : alloc) (ov : wov) (c : cb) : M cbres :=
 (* the k-th write_bit call, the k-th read_bit call, the signal check at op count n *)
 Record world := mkWorld { w_out : N -> cb; w_in : N -> cb; w_sig : N -> bool }.
 
-Inductive stepres (L : Type) := Cont (l : L) | Term (cause : N) (l : L) | PyError (l : L).
-Arguments Cont {L} l. Arguments Term {L} cause l. Arguments PyError {L} l.
+Inductive stepres (L : Type) := Cont (l : L) | Term (cause : N) (l : L) | PyError (e : exc) (l : L).   (* PyError: CAUSE_PYTHON_ERROR *)
+Arguments Cont {L} l. Arguments Term {L} cause l. Arguments PyError {L} e l.
 Notation TERM_LOOPING := 0%N. Notation TERM_EOF := 1%N. Notation TERM_NULL_IP := 2%N. Notation TERM_MEMORY_ERROR := 3%N.
 
 Record locals := mkLoc { l_ip : N; l_ops : N; l_nout : N; l_nin : N; l_inner : N; l_ring : option (arr N); l_rlen : N; l_rw : N;
@@ -695,13 +699,13 @@ Definition io_phase (al : alloc) (ov : wov) (wd : world) (l : locals) (f : N) : 
   c <- gets m_cfg;;
   let '(dw, in_addr, in_lo) := io_consts c in
   o <- (if usub f dw <=? 1 then io_output al ov wd l else ret (true, l));;
-  if negb (fst o) then ret (inr (PyError (snd o))) else
+  if negb (fst o) then ret (inr (PyError CallbackError (snd o))) else
   let l1 := snd o in
   if usub (usub (l_ip l1) in_lo) 1 <? dw then
     i <- io_input al ov wd l1;;
     match fst i with
     | InEOF => ret (inr (Term TERM_EOF (snd i)))
-    | InErr => ret (inr (PyError (snd i)))
+    | InErr => ret (inr (PyError CallbackError (snd i)))
     | InBit b => okw <- mem_write_bit al ov in_addr b;;
                  if okw then ret (inl (snd i)) else r <- memory_error_exit (snd i);; ret (inr r)
     end
@@ -717,7 +721,7 @@ Definition finish_op (ov : wov) (c : cfg) (l : locals) (f j : N) : stepres local
 
 (* PyErr_CheckSignals at the head of the outer loop, then inner_left = SIGNAL_CHECK_MASK + 1 *)
 Definition signal_check (wd : world) (l : locals) : locals + stepres locals :=
-  if l_inner l =? 0 then (if w_sig wd (l_ops l) then inr (PyError l) else inl (set_inner (SIGNAL_CHECK_PERIOD - 1) l))
+  if l_inner l =? 0 then (if w_sig wd (l_ops l) then inr (PyError CallbackError l) else inl (set_inner (SIGNAL_CHECK_PERIOD - 1) l))
   else inl (set_inner (l_inner l - 1) l).
 
 (* ---------------------------------------------------------------- run_flat_loop_impl: one op *)
@@ -760,19 +764,11 @@ Inductive oplane := HotLane (p : N) (off ve : N)      (* op_words, op_offset, op
                   | FlatLane (jaddr : N)              (* op_flat_jump - flat *)
                   | SlowLane.
 
-Definition paged_op (al : alloc) (ov : wov) (wd : world) (fc : N) (l0 : locals) : M (stepres locals) :=
-  match signal_check wd l0 with inr r => ret r | inl l00 =>
+(* the op after the ring write (l already holds the written ring) *)
+Definition paged_op_body (al : alloc) (ov : wov) (wd : world) (fc : N) (l : locals) : M (stepres locals) :=
   c <- gets m_cfg;;
-  let ip := l_ip l00 in
+  let ip := l_ip l in
   let bit_mask := usub (c_w c) 1 in
-  (* last_ops_ring[ring_writes % last_ops_length] = ip *)
-  lr <- (match l_ring l00 with
-         | None => ret l00
-         | Some ring => idx <- lift (umod (l_rw l00) (l_rlen l00));;
-                        ring' <- lift (aset S_ring ring idx ip);;
-                        ret (set_ring (Some ring') (wrapv ov V_ring_writes (l_rw l00 + 1)) l00)
-         end);;
-  let l := lr in
   let with_ring := match l_ring l with Some _ => true | None => false end in
   fl <- gets m_fl;;
   let use_flat := with_ring && match f_arr fl with Some _ => true | None => false end in
@@ -832,7 +828,23 @@ Definition paged_op (al : alloc) (ov : wov) (wd : world) (fc : N) (l0 : locals) 
              else wa1 <- lift (nowrap W_word_plus1 (N.shiftr ip (c_ww c) + 1));; mem_read_word al ov wa1
          end);;
   match jr with None => memory_error_exit l1 | Some j => ret (finish_op ov c l1 f j) end
-  end end end.
+  end end.
+
+(* a Python error raised inside a helper (an allocation failure in mem_get_page) leaves the loop through
+   memory_or_python_error with the locals - ring, ring_writes - as they are: CAUSE_PYTHON_ERROR *)
+Definition paged_op (al : alloc) (ov : wov) (wd : world) (fc : N) (l0 : locals) : M (stepres locals) :=
+  match signal_check wd l0 with inr r => ret r | inl l1 =>
+  let ip := l_ip l1 in
+  (* last_ops_ring[ring_writes % last_ops_length] = ip *)
+  lr <- (match l_ring l1 with
+         | None => ret l1
+         | Some ring => idx <- lift (umod (l_rw l1) (l_rlen l1));;
+                        ring' <- lift (aset S_ring ring idx ip);;
+                        ret (set_ring (Some ring') (wrapv ov V_ring_writes (l_rw l1 + 1)) l1)
+         end);;
+  x <- catch (paged_op_body al ov wd fc lr);;
+  match x with inl r => ret r | inr e => ret (PyError e lr) end
+  end.
 
 (* ---------------------------------------------------------------- run_measured_loop: one op *)
 
@@ -853,7 +865,7 @@ Definition spec_record (al : alloc) (ov : wov) (l : locals) (ip j : N) : M local
 
 Definition measured_op (al : alloc) (ov : wov) (wd : world) (l0 : locals) : M (stepres locals) :=
   (* if ((ops & MASK) == MASK) PyErr_CheckSignals *)
-  if (N.land (l_ops l0) (SIGNAL_CHECK_PERIOD - 1) =? SIGNAL_CHECK_PERIOD - 1) && w_sig wd (l_ops l0) then ret (PyError l0) else
+  if (N.land (l_ops l0) (SIGNAL_CHECK_PERIOD - 1) =? SIGNAL_CHECK_PERIOD - 1) && w_sig wd (l_ops l0) then ret (PyError CallbackError l0) else
   let l := l0 in
   c <- gets m_cfg;;
   let ip := l_ip l in
@@ -875,12 +887,12 @@ Inductive loopkind := LFlat | LPaged | LMeasured.
 Definition loop_op (k : loopkind) (al : alloc) (ov : wov) (wd : world) (fc : N) (l : locals) : M (stepres locals) :=
   match k with LFlat => flat_op al ov wd fc l | LPaged => paged_op al ov wd fc l | LMeasured => measured_op al ov wd l end.
 
-Inductive runres := Finished (cause : N) (l : locals) | Failed (l : locals) | Running (l : locals).
+Inductive runres := Finished (cause : N) (l : locals) | Failed (e : exc) (l : locals) | Running (l : locals).
 Fixpoint loop_n (n : nat) (k : loopkind) (al : alloc) (ov : wov) (wd : world) (fc : N) (l : locals) : M runres :=
   match n with
   | O => ret (Running l)
   | S n' => r <- loop_op k al ov wd fc l;;
-            match r with Cont l' => loop_n n' k al ov wd fc l' | Term cz l' => ret (Finished cz l') | PyError l' => ret (Failed l') end
+            match r with Cont l' => loop_n n' k al ov wd fc l' | Term cz l' => ret (Finished cz l') | PyError e l' => ret (Failed e l') end
   end.
 
 (* build_run_result: the indexes read from the ring, oldest first *)
@@ -911,21 +923,28 @@ Definition api_run (ev : envv) (al : alloc) (ov : wov) (wd : world) (lol : Z) (s
   let len := if (lol <? 0)%Z then 0 else Z.to_N lol in
   let start_ip := start_ip0 mod U64 in
   mem_decide_storage ev al;;;
+  modify (set_kept None);;;                                          (* Py_CLEAR(self->last_run_last_ops) *)
   fl <- gets m_fl;;
   let has_flat := match f_arr fl with Some _ => true | None => false end in
+  let generic := negb (e_measure ev && (len =? 0)) && negb (has_flat && (len =? 0)) in
   modify (fun s => set_err false (m_err_addr s) s);;;
   rr <- (if e_measure ev && (len =? 0) then
            r <- loop_n n LMeasured al ov wd (f_count fl) (init_locals start_ip None 0);; ret r
          else if has_flat && (len =? 0) then
            loop_n n LFlat al ov wd (f_count fl) (init_locals start_ip None 0)
          else
+           (* calloc(last_ops_length, 8): the product is formed and checked by calloc itself - here it is the unbounded
+              len * 8, and try_alloc refuses everything above PTRDIFF_MAX (so every length >= 2^60 is a MemoryError) *)
            ring <- (if 0 <? len then ok <- try_alloc al (len * 8);; if ok then ret (Some (anew len 0)) else raise MemoryError
                     else ret None);;
            loop_n n LPaged al ov wd (f_count fl) (init_locals start_ip ring len));;
   match rr with
   | Finished cz l => lo <- lift (ring_readout l);; ea <- gets m_err_addr;;
                      ret (mkRunOut rr lo (if cz =? TERM_MEMORY_ERROR then Some ea else None))
-  | Failed _ => raise CallbackError                                  (* CAUSE_PYTHON_ERROR: free(ring); return NULL *)
+  | Failed e l =>                                                    (* CAUSE_PYTHON_ERROR *)
+      (if generic then lo <- lift (ring_readout l);; modify (set_kept (Some lo))   (* kept = ring_to_list(...) *)
+       else ret tt);;;
+      raise e
   | Running _ => ret (mkRunOut rr [] None)
   end.
 
